@@ -22,7 +22,7 @@ func init() {
 		Builds:   []string{"default", "386"}, // the 386 build runs 1/12 of the random classes on a 32-bit target
 		Scale386: 12,
 		Parallel: 4, // cases are judged on 4 goroutines per shard: the library functions are stateless, shared state inside them shows up as wrong verdicts
-		Rule: "prove: (seed, alpha) with alpha of every length 0..700 (thorough 0..2200) and around 2^10..2^13, proof bytes compared with the RFC 9381 model, then Verify/ProofToHash/Proof.Hash/SetBytes/MarshalBinary agreement; verify: (key, alpha, proof) triples judged two-sidedly against the model: honest, every single-bit flip of honest proofs, Gamma+T for the 8 torsion points, non-canonical and undecodable Gamma, s+L / s in {L-1, L, L+1}, random 80-byte strings, lengths 0..100, wrong keys, every small-order key encoding (canonical and not), all 38 y>=p key encodings, undecodable keys, and forged proofs that would verify for small-order keys if validate_key were dropped; decode: SetBytes/UnmarshalBinary/ProofToHash succeed iff the model decodes, and re-encode to the input; unique: all accepted proofs for one (key, alpha) give one hash. reuse: eight decodes into ONE Proof object (SetBytes/UnmarshalBinary mixed, undecodable inputs in between): Bytes() and Hash() must describe the bytes decoded last. related: back-to-back Prove/Verify on equal-length alphas that share a long prefix. concurrent: 16 goroutines call Verify/Prove at once against precomputed expectations. " +
+		Rule: "prove: (seed, alpha) with alpha of every length 0..700 (thorough 0..2200) and around 2^10..2^13, proof bytes compared with the RFC 9381 model, then Verify/ProofToHash/Proof.Hash/SetBytes/MarshalBinary agreement; verify: (key, alpha, proof) triples judged two-sidedly against the model: honest, every single-bit flip of honest proofs, Gamma+T for the 8 torsion points, non-canonical and undecodable Gamma, s+L / s in {L-1, L, L+1}, random 80-byte strings, lengths 0..100, wrong keys, every small-order key encoding (canonical and not), all 38 y>=p key encodings, undecodable keys, and forged proofs that would verify for small-order keys if validate_key were dropped; decode: SetBytes/UnmarshalBinary/ProofToHash succeed iff the model decodes, and re-encode to the input; unique: all accepted proofs for one (key, alpha) give one hash. reuse: eight decodes into ONE Proof object (SetBytes/UnmarshalBinary mixed, undecodable inputs in between): Bytes() and Hash() must describe the bytes decoded last, and the slices handed out after earlier decodes must keep their contents. Keys, alphas and proofs of the prove class are passed as windows into larger buffers whose pattern behind the slice must survive. related: back-to-back Prove/Verify on equal-length alphas that share a long prefix. concurrent: 16 goroutines call Verify/Prove at once against precomputed expectations. " +
 			"Non-trivial: distinct cases outside the purely random classes.",
 		Assumptions: []string{"SHA-512 of the Go standard library", "math/big", "the RFC 9381 model in harness/oracle/ecvrf (self-tested against the three RFC 9381 ECVRF-EDWARDS25519-SHA512-TAI examples)"},
 		SelfTest:    ecvrf.SelfTest,
@@ -40,7 +40,7 @@ func init() {
 			}
 			return map[string]string{"public_key": fw.Hex(p[0]), "alpha": fw.Hex(p[1]), "proof": fw.Hex(p[2])}
 		},
-		Required: []string{"prove ok", "verify model=accept impl=accept", "verify model=reject impl=reject", "decode model=ok impl=ok", "decode model=fail impl=fail", "unique checked", "reuse executions", "related executions", "concurrent executions"},
+		Required: []string{"prove ok", "inputs passed with spare capacity stayed intact", "verify model=accept impl=accept", "verify model=reject impl=reject", "decode model=ok impl=ok", "decode model=fail impl=fail", "unique checked", "reuse executions", "related executions", "concurrent executions"},
 	})
 }
 
@@ -83,20 +83,31 @@ func judgeProve(seed, alpha []byte, o *fw.Obs) {
 	var ok bool
 	var err2, err3 error
 	var priv ed25519.PrivateKey
+	// the caller's key, alpha and proof are windows into larger buffers (a key ring, a wire message): the
+	// pattern behind each slice's length must survive the calls
+	var privIn, pubIn, alphaIn, piIn []byte
 	if !o.Try("Prove/Verify/ProofToHash", func() {
-		priv = vrf.NewKeyFromSeed(seed)
-		pr := vrf.Prove(priv, alpha)
+		priv = vrf.NewKeyFromSeed(fw.Spare(seed, 96))
+		privIn, alphaIn = fw.Spare(priv, 160), fw.Spare(alpha, 160)
+		pr := vrf.Prove(ed25519.PrivateKey(privIn), alphaIn)
 		pi = pr.Bytes()
 		mb, err3 = pr.MarshalBinary()
 		beta3 = pr.Hash()
-		ok, beta = vrf.Verify(vrf.PublicKey(priv[32:]), alpha, pi)
-		beta2, err2 = vrf.ProofToHash(pi)
+		pubIn, piIn = fw.Spare(priv[32:], 160), fw.Spare(pi, 160)
+		ok, beta = vrf.Verify(vrf.PublicKey(pubIn), alphaIn, piIn)
+		beta2, err2 = vrf.ProofToHash(piIn)
 	}) {
 		return
 	}
+	if !fw.SpareIntact(privIn) || !fw.SpareIntact(alphaIn) || !fw.SpareIntact(pubIn) || !fw.SpareIntact(piIn) {
+		o.Fail("mutation", "Prove/Verify/ProofToHash wrote into the caller's memory behind the end of a slice it was given (spare capacity of the private key, alpha, public key or proof): key buffer %x, alpha buffer %x, public key buffer %x, proof buffer %x", privIn[:cap(privIn)], alphaIn[:cap(alphaIn)], pubIn[:cap(pubIn)], piIn[:cap(piIn)])
+		return
+	}
+	o.Count("inputs passed with spare capacity stayed intact")
 	kept.Keep("proof bytes returned by Proof.Bytes", pi)
 	kept.Keep("hash returned by Verify", beta)
 	kept.Keep("hash returned by ProofToHash", beta2)
+	kept.Keep("hash returned by Proof.Hash", beta3)
 	defer kept.Check(o)
 	if !bytes.Equal(priv[32:], mpub) {
 		o.Fail("key", "public key %x differs from RFC 8032 key %x", []byte(priv[32:]), mpub)
@@ -220,6 +231,7 @@ func judgeReuse(seed uint64, o *fw.Obs) {
 		return
 	}
 	obj := new(vrf.Proof)
+	var handedOut fw.Keeper // hashes and encodings returned in earlier steps must not change when the object is reused
 	for step := 0; step < 8; step++ {
 		alpha := make([]byte, r.Intn(40))
 		r.Read(alpha)
@@ -259,7 +271,15 @@ func judgeReuse(seed uint64, o *fw.Obs) {
 			o.Fail("reuse", "decode %d into one reused Proof object via %s: err=%v, Bytes()=%x, Hash()=%x; the bytes decoded last are %x with hash %x", step+1, how, err, back, h, pi, want)
 			return
 		}
+		if !handedOut.Check(o) {
+			return
+		}
+		handedOut.Keep(fmt.Sprintf("Hash() returned after decode %d into the reused Proof object", step+1), h)
+		handedOut.Keep(fmt.Sprintf("Bytes() returned after decode %d into the reused Proof object", step+1), back)
 		o.Count("reuse: decodes into one Proof object checked")
+	}
+	if !handedOut.Check(o) {
+		return
 	}
 	o.Count("reuse executions")
 }
